@@ -38,14 +38,47 @@ def c16_run(pid, tier):
     return engines
 
 
+def c17_engine(binary, pid, tier, tag=""):
+    """Run the aliasing engine; if the process is killed by a memory-fault signal, localise the
+    operation sequence in a one-at-a-time re-run and report it as a violation (a use-after-free of
+    the shared target is exactly what the liveness clause forbids). A crash that the isolating run
+    does not reproduce is a machinery failure, not a verdict."""
+    import re
+    res = common.run_engine(binary, pid, tier, tag=tag)
+    if not res.get("signal"):
+        return res["engines"]
+    sig = res["signal"]
+    if sig not in (4, 6, 7, 11):
+        raise Machinery("aliasing engine killed by signal %d%s: %s" % (sig, tag, res.get("stderr", "")[-1500:]))
+    iso = common.run_engine(binary, pid, tier, extra_env={"VERIF_ISOLATE": "1", "VERIF_THREADS": "1"}, tag=tag + "-isolate")
+    if not iso.get("signal"):
+        raise Machinery("aliasing engine died with signal %d%s but the one-at-a-time re-run completed: %s" % (
+            sig, tag, res.get("stderr", "")[-1500:]))
+    lines = [l for l in iso.get("stderr", "").splitlines() if l.startswith("ISOLATE ")]
+    if not lines:
+        raise Machinery("isolating run died with signal %d before announcing a sequence" % iso["signal"])
+    last = lines[-1][len("ISOLATE "):]
+    m = re.match(r"(\w+) (\w+) \[(.*)\]", last)
+    variant = m.group(1) if m else "unknown"
+    e = common.mk_engine("c17-aliasing-seqs",
+                         "aliasing sequences (the exploring process was killed by a signal; sequence localised by a one-at-a-time re-run)", "")
+    e["executions"] = e["states"] = e["transitions"] = 1
+    e["violations"].append(common.viol(
+        "reference:%s:crash" % variant,
+        "the process executing the aliasing sequences was killed by signal %d; one-at-a-time re-run: killed by signal %d during "
+        "variant/target/sequence %s -- a memory fault while only clone / to_dyn! / borrow / borrow_mut / drop of handles to one live "
+        "target are performed (stderr tail: %s)" % (sig, iso["signal"], last, "\n".join(
+            l for l in iso.get("stderr", "").splitlines() if not l.startswith("ISOLATE"))[-600:]), size=last.count("(")))
+    return [e]
+
+
 def c17_run(pid, tier):
     import c17_extra
-    engines = default_run(pid, tier)
+    binary, _ = common.build_props("std")
+    engines = c17_engine(binary, pid, tier)
     # the alloc-without-std build has its own to_dyn! definition: run the aliasing engine there too
     binary, _ = common.build_props("libm")
-    res = common.run_engine(binary, pid, "quick", tag="-alloc-only")
-    if res.get("signal"):
-        raise Machinery("aliasing engine died in the alloc-only build")
+    res = {"engines": c17_engine(binary, pid, "quick", tag="-alloc-only")}
     for e in res["engines"]:
         e["name"] += "[alloc-only]"
         e["rule"] = "(rrtk built with alloc but without std: Ptr and RcRefCell variants, the alloc-only to_dyn! definition) " + e["rule"][:300]
